@@ -103,9 +103,9 @@ macro_rules! scene_codec {
             }
         }
         fn touch(b: &[u8]) -> Result<(), String> {
-            $dec(b).map(|v| drop(v)).map_err(|e| text_label(&e.to_string()))
+            $dec(b).map(|_| ()).map_err(|e| text_label(&e.to_string()))
         }
-        Codec { name: $name, family: Family::CborScene, canonical: false, cbor_offset: 0, decode: dec, touch, roundtrip: $rt, chunks: &[], needs_kernel: false, in_c12: true }
+        Codec { name: $name, family: Family::CborScene, canonical: false, cbor_offset: 0, decode: dec, touch, roundtrip: $rt, chunks: &[], needs_kernel: false, in_c12: true, in_c13: true }
     }};
 }
 
